@@ -21,7 +21,7 @@ EXPLANATION = (
     'as a mate; the clock passed is the position\'s half-move clock; (2) Search::iterativeDeepening lowers minProbeDepth to 1 only on '
     'the true branch of updateTB(); (3) TBProbe::extendPV extends a PV with tablebase moves only under the same distance inequality.'
     ' (4) the on-demand table is never consulted for positions with castling rights (shared with C12.5); (5) at every exit of every TranspositionTable method the pair (generator, table region) is in the class invariant - no generator installed, or a complete one with its region reserved (shared with C12.1).'
-    ' Added later; (6) a freshly generated table is consulted before the clock can abort the search; (7) placement order of the probe index. (8) duplicate filters present in every neighbour-list loop (= C12.7). (9) = C12.9 a probe answers only for positions of the table\'s material class. (10) = C12.11 one position, one table slot.')
+    ' Added later; (6) a freshly generated table is consulted before the clock can abort the search; (7) placement order of the probe index. (8) duplicate filters present in every neighbour-list loop (= C12.7). (9) = C12.9 a probe answers only for positions of the table\'s material class. (10) = C12.11 one position, one table slot. (11) = C12.12 an installed table is consulted whatever the next time budget is.')
 UNDECIDED = 'exactness of the reported distances (C12: value-level) and the choice of move among equally good tablebase moves.'
 ASSUMPTIONS = ['the generated table is complete when updateTB() returns true (C12.1, C12.2)']
 
@@ -49,6 +49,8 @@ def run(fb, rep, tier):
     C12.c9_all_men_placed(fb, rep, 'C13.9')
     # .10 one position, one table slot (shared with C12.11)
     C12.c11_canonical_index_compared_after_sorting(fb, rep, 'C13.10')
+    # .11 an installed table is consulted whatever the next time budget is (shared with C12.12)
+    C12.c12_installed_table_is_used(fb, rep, 'C13.11')
     # .8 the values themselves: duplicate neighbours are counted once (shared with C12.7)
     C12.c7_dedup_filters(fb, rep, 'C13.8')
 
